@@ -52,6 +52,10 @@ def run(ctx):
     r075(ctx)
     r076(ctx)
     c03.r031(ctx, 'R07.7')
+    c03.r035(ctx, 'R07.8')
+    with ctx.rule('R07.9', 'Header and Body completion arms agree (unknown tag is an error in both)', floor=1) as r:
+        from rules import arms as A
+        A.include(ctx, r, 'c03', 'R03.2')
 
 
 def r072(ctx):
